@@ -24,6 +24,7 @@ import (
 	minttypes "github.com/cosmos/cosmos-sdk/x/mint/types"
 
 	transfertypes "github.com/cosmos/ibc-go/v11/modules/apps/transfer/types"
+	channeltypes "github.com/cosmos/ibc-go/v11/modules/core/04-channel/types"
 	ibctesting "github.com/cosmos/ibc-go/v11/testing"
 	"github.com/cosmos/ibc-go/v11/testing/simapp"
 
@@ -39,10 +40,11 @@ const (
 	KV1    = 0 // v1 UNORDERED channel on port "transfer", version ics20-1
 	KV2    = 1 // v2 client pair with registered counterparties
 	KAlias = 2 // v2 packets addressed to the channel ids of the v1 transfer channel of the same chain pair
+	KMock  = 3 // v1 UNORDERED channel A:"transfer" <-> B:"mock" (counterparty port differs, e.g. a contract-based ICS-20); B's scripted mock app speaks version ics20-1 and answers every receive with an error acknowledgement; only A can send
 )
 
 // KindName names a Spec link kind.
-func KindName(k int) string { return [...]string{"v1", "v2", "alias"}[Pick(3, k)] }
+func KindName(k int) string { return [...]string{"v1", "v2", "alias", "v1-mockport"}[Pick(4, k)] }
 
 // LinkSpec describes one link between chains A and B.
 type LinkSpec struct {
@@ -71,6 +73,7 @@ type End struct {
 	ID     string
 	Peer   *End
 	Escrow sdk.AccAddress
+	Mock   bool        // the end is bound to the scripted mock application (port "mock"), not to ICS-20
 	Links  []*sim.Link // links using this end (v1 and/or alias, or one v2 link)
 	Sides  []int       // side of the respective link that this end is
 }
@@ -91,7 +94,8 @@ type World struct {
 	// RecvDisabled mirrors the forced transfer param ReceiveEnabled=false per chain.
 	RecvDisabled []bool
 	// Grants is the authz model (see authz.go).
-	Grants []*Grant
+	Grants   []*Grant
+	mockLink map[int]bool // link index -> it is a KMock link (side 1 is the mock port)
 	// SentBy maps a history step number to the index of the packet it committed.
 	SentBy map[int]int
 	// Relays remembers every relay message delivered, for verbatim duplicates.
@@ -151,7 +155,9 @@ func (spec Spec) Plan() []LinkSpec {
 		if a == b {
 			b = (a + 1) % n
 		}
-		switch Pick(3, ls.K) {
+		switch Pick(4, ls.K) {
+		case KMock:
+			out = append(out, LinkSpec{KMock, a, b})
 		case KV1:
 			l := LinkSpec{KV1, a, b}
 			out = append(out, l)
@@ -184,7 +190,7 @@ func (spec Spec) PlanRoutes(c int) []PlannedRoute {
 		if l.A == c {
 			out = append(out, PlannedRoute{l.K, l.B})
 		}
-		if l.B == c {
+		if l.B == c && l.K != KMock {
 			out = append(out, PlannedRoute{l.K, l.A})
 		}
 	}
@@ -199,7 +205,7 @@ func NewWorld(outer *testing.T, spec Spec) *World {
 	if spec.Chains > 3 {
 		spec.Chains = 3
 	}
-	w := &World{World: sim.NewWorld(outer, spec.Chains, nil), Spec: spec, endIdx: map[string]*End{}, SentBy: map[int]int{}}
+	w := &World{World: sim.NewWorld(outer, spec.Chains, nil), Spec: spec, endIdx: map[string]*End{}, SentBy: map[int]int{}, mockLink: map[int]bool{}}
 	w.Fund = spec.Fund
 	if w.Fund <= 0 {
 		w.Fund = 1_000_000
@@ -219,6 +225,20 @@ func NewWorld(outer *testing.T, spec Spec) *World {
 				w.Links = append(w.Links, l)
 			})
 			lastV1[pairKey(a, b)] = l
+		case KMock:
+			a, b := pl.A, pl.B
+			// B's mock application agrees to speak ICS-20 (as a contract-based implementation would)
+			w.App(b).IBCMockModule.IBCApp.OnChanOpenTry = func(sdk.Context, channeltypes.Order, []string, string, string, channeltypes.Counterparty, string) (string, error) {
+				return transfertypes.V1, nil
+			}
+			sim.Guard("transfer<->mock channel setup", func() {
+				p := ibctesting.NewTransferPath(w.Chains[a], w.Chains[b])
+				p.EndpointB.ChannelConfig.PortID = ibctesting.MockPort
+				p.Setup()
+				l = &sim.Link{Idx: len(w.Links), Kind: sim.V1Unordered, Chain: [2]int{a, b}, Path: p}
+				w.Links = append(w.Links, l)
+			})
+			w.mockLink[l.Idx] = true
 		case KV2:
 			l = w.AddLink(sim.V2Clients, pl.A, pl.B, nil)
 		case KAlias:
@@ -285,6 +305,9 @@ func (w *World) addEnds(l *sim.Link) {
 			w.endIdx[endKey(c, id)] = e
 			w.Ends = append(w.Ends, e)
 		}
+		if w.mockLink[l.Idx] && side == 1 {
+			e.Mock = true
+		}
 		e.Links = append(e.Links, l)
 		e.Sides = append(e.Sides, side)
 		es[side] = e
@@ -317,13 +340,16 @@ func (w *World) RoutesFrom(c int) []Route {
 	var out []Route
 	for _, l := range w.Links {
 		for d := 0; d < 2; d++ {
-			if l.Chain[d] == c {
+			if l.Chain[d] == c && !(w.mockLink[l.Idx] && d == 1) {
 				out = append(out, Route{l, d})
 			}
 		}
 	}
 	return out
 }
+
+// IsMock reports whether l is a KMock link.
+func (w *World) IsMock(l *sim.Link) bool { return w.mockLink[l.Idx] }
 
 // SpecKind maps a sim link kind to the Spec kind constants.
 func SpecKind(l *sim.Link) int {
